@@ -4,6 +4,7 @@ import P0f.Generated.Logic.MtuFromMss
 import P0f.Generated.Logic.FindMtuMatch
 import P0f.Generated.Logic.FingerprintMtu
 import P0f.LogicOk.Gates
+import P0f.Props.C08
 namespace P0f
 /-- `MTUPacketSignature.from_mss` as printed from the source: PacketError without an MSS, else MSS + 40 / 60 (C08) -/
 theorem gen_mtuFromMss (mss v : Nat) :
@@ -67,5 +68,24 @@ theorem gen_fingerprintMtu (db : List Nat) (p : PktL) :
        simp only [findMtu]
        simpa using this
      · simp [hv])
+
+
+/-- **C08 (fingerprint side) against the source text**: the printed `fingerprint_mtu` raises PacketError exactly for a fragment, a
+    packet without MSS or one that is not a SYN / SYN+ACK, and otherwise reports MSS + 40 (IPv4) / + 60 (IPv6) with the EARLIEST
+    record of exactly that MTU (its position in the list), or no record when there is none -/
+theorem source_fpMtu_spec (db : List Nat) (p : PktL) :
+    ((Gen.fingerprintMtu db.zipIdx p).map (fun r => (r.1, r.2.map (·.2))) = none ↔
+        (p.ip.isFragment = true ∨ p.tcp.opts.mss = 0 ∨ ¬ (p.tcp.type = F_SYN ∨ p.tcp.type = F_SYN ||| F_ACK))) ∧
+    (∀ mtu m, (Gen.fingerprintMtu db.zipIdx p).map (fun r => (r.1, r.2.map (·.2))) = some (mtu, m) →
+        mtu = p.tcp.opts.mss + (if p.ip.version = 4 then 40 else 60) ∧
+        (∀ i, m = some i → db[i]? = some mtu ∧ ∀ j < i, db[j]? ≠ some mtu) ∧ (m = none → mtu ∉ db)) := by
+  rw [gen_fingerprintMtu]
+  obtain ⟨h1, h2⟩ := fpMtu_spec db p
+  refine ⟨h1, ?_⟩
+  intro mtu m hm
+  obtain ⟨e1, e2⟩ := h2 mtu m hm
+  obtain ⟨f1, f2⟩ := findMtu_first db mtu
+  subst e2
+  exact ⟨e1, f1, f2⟩
 
 end P0f
